@@ -10,11 +10,13 @@ CAP = 256
 
 
 class Relational:
-    def __init__(self, fn, elem_fx=None, edge_fx=None):
-        """elem_fx(eid, x, facts) -> (adds, kills) or None;  edge_fx(block, succ_index, atom, holds, facts) -> adds."""
+    def __init__(self, fn, elem_fx=None, edge_fx=None, switch_fx=None):
+        """elem_fx(eid, x, facts) -> (adds, kills) or None;  edge_fx(block, succ_index, atom, holds, facts) -> adds;
+        switch_fx(switch block, label dict of the successor, facts) -> adds on the edge into a case / default label."""
         self.fn = fn
         self.elem_fx = elem_fx
         self.edge_fx = edge_fx
+        self.switch_fx = switch_fx
         self.atoms = branch_atoms(fn)
         self.flags = self._find_flags()
         self.IN, self.OUT = forward(fn, frozenset({(frozenset(), frozenset())}), self._transfer, self._join, edge=self._edge)
@@ -86,6 +88,13 @@ class Relational:
 
     def _edge(self, b, si, succ, st):
         if b not in self.atoms:
+            if self.switch_fx is not None and (self.fn.blocks[b].get("term") or {}).get("kind") == "SwitchStmt":
+                lab = self.fn.blocks[succ].get("label") or {}
+                out = set()
+                for facts, flags in st:
+                    adds = self.switch_fx(b, lab, facts)
+                    out.add((frozenset(set(facts) | set(adds)) if adds else facts, flags))
+                return frozenset(out)
             return st
         atom, pol = self.atoms[b]
         holds = (si == 0) == pol
